@@ -45,6 +45,9 @@ MCCfg   == CASE CfgSel \in {"absent", "empty", "broken"} -> [unix |-> NoPattern,
              [] CfgSel = "partial" -> [unix |-> [ev |-> PStar, sfx |-> RTEmpty, nsfx |-> RTEmpty], windows |-> NoPattern]
              [] CfgSel \in {"crs", "crsblock"} -> [unix |-> [ev |-> PStar, sfx |-> PSfx, nsfx |-> PNSfx],
                                        windows |-> [ev |-> POpt, sfx |-> PNSfx, nsfx |-> PSfx]]
+             \* only SOME of the patterns have a top-level alternation
+             [] CfgSel = "mixed"   -> [unix |-> [ev |-> PAlt, sfx |-> PSfx, nsfx |-> PStar],
+                                       windows |-> [ev |-> PStar, sfx |-> PAltS, nsfx |-> POpt]]
              [] CfgSel = "hostile" -> [unix |-> [ev |-> PAlt, sfx |-> PAltS, nsfx |-> PAlt],
                                        windows |-> [ev |-> PAltS, sfx |-> PAlt, nsfx |-> PAltS]]
 YamlOf(c) == "patterns:\n  anti_evasion:\n    unix: '" \o c.unix.ev.txt \o "'\n    windows: '" \o c.windows.ev.txt
@@ -126,7 +129,7 @@ SymMap == IF PoolSel = "hyg" THEN [E |-> "0e"] ELSE <<>>
 
 \* command words for cmdline blocks
 Words == IF PoolSel = "cmd"
-         THEN << "a", "aa", "a.a", "a a", "aa@", "a.~", "a\\@", "a\\~", "@a", "a@a", "xa" >>
+         THEN << "a", "aa", "a.a", "a a", "aa@", "a.~", "a\\@", "a\\~", "@a", "a@a", "xa", "a@", "x~", "@" >>
          ELSE << "a", "ab", "b.a", "ba@", "a b" >>
 
 PfxPool == << RT("a", One(La)), RT("[ab]", One(Cls({"a", "b"}))) >>
